@@ -18,7 +18,7 @@ def maxabs(case):
 PRED_SIG = {
     "P01": ("GHHV", 0),
     "P07": ("TTT", 0),
-    "P06": ("GHTT", 0), "P06S": ("T", 0), "P04": ("GHT", 0),
+    "P06": ("GHTT", 0), "P06S": ("T", 0), "P04": ("GHT", 0), "P05": ("GHTV", 0), "J05": ("GHTV", 0),
 }
 for k, v in PRED_SIG.items(): corr.OPSIG[k] = v
 
@@ -94,7 +94,7 @@ def tangent_stats(c):
             return th2, lin
     return None, None
 
-def gen_below_pi(op):
+def gen_below_pi(op, strata=("zero", "tiny", "below_thr", "at_thr", "above_thr", "small", "generic")):
     """predicate case whose tangent arguments have rotation magnitude <= 3.0 < pi (inside the injectivity radius)"""
     def f(g, gn):
         c = corr.gen_case(g, gn, op, force_valid=True)
@@ -108,12 +108,70 @@ def gen_below_pi(op):
                     for kind, n in gd.tparts:
                         if kind == "lin": a += g.vecmag(n)
                         else:
-                            th = g.angle(g.r.choice(["zero", "tiny", "below_thr", "at_thr", "above_thr", "small", "generic"]))
+                            th = g.angle(g.r.choice(list(strata)))
                             a += [th] if kind == "ang1" else (g.vec3_norm(th) if g.r.random() < 0.8 else g.vec3_any(th * Fr(9, 10)))
             args.append(a)
         c["args"] = args
         return c
     return f
+
+def compose_py(gd, X, d):
+    """X * D on coefficient lists for the rotation parts only (used to build a second element at a controlled relative rotation)"""
+    out = []; i = 0
+    for kind, n in gd.eparts:
+        a, b = X[i:i + n], d[i:i + n]; i += n
+        if kind == "lin": out += [x + y for x, y in zip(a, b)]
+        elif kind == "rot2": out += corr.cmul(a, b)
+        else: out += corr.qmul(a, b)
+    return out
+
+def gen_smooth(op, kmax=10, strata=("zero", "tiny", "below_thr", "at_thr", "above_thr", "small", "generic")):
+    """X, Y valid with neither X nor the relative rotation X^-1*Y exactly a half turn (log-type Jacobians exist there only as limits),
+    tangents with rotation magnitude <= 3.0 (below pi), magnitudes up to 2^kmax; points arbitrary"""
+    base = gen_below_pi(op, strata)
+    def f(g, gn):
+        c = base(g, gn); gd = corr.group(gn); sig = corr.OPSIG[op][0]
+        X = corr.gen_elem(g, gd, True, nopi=True, kmax=kmax); args = []
+        for k, a in zip(sig, c["args"]):
+            if k == "G": a = X
+            elif k == "H": a = compose_py(gd, X, corr.gen_elem(g, gd, True, nopi=True, kmax=kmax))
+            elif k == "T":
+                if max([abs(x) for x in a] + [0]) > 2 ** kmax: a = sweep_tangent(g, gd, maxang=0.47, linmax=3)
+            elif k == "V": a = g.vecmag(len(a), kmax)
+            args.append(a)
+        c["args"] = args; return c
+    return f
+
+def rot_angles(c):
+    """approximate (float) rotation angles of the arguments of a case: dict(ang_t: first tangent, ang_X: first element,
+    ang_rel: of X^-1*Y for the first two elements) — used only to locate listed known findings"""
+    import math
+    if c["group"].startswith("B"): return {}
+    gd = corr.group(c["group"]); sig = corr.OPSIG[c["op"]][0]; out = {}
+    def ang(E):
+        i = 0
+        for kind, n in gd.eparts:
+            part = E[i:i + n]; i += n
+            if kind == "rot2": return abs(math.atan2(float(part[1]), float(part[0])))
+            if kind == "rot4":
+                v = math.sqrt(sum(float(x) ** 2 for x in part[:3])); return 2 * math.atan2(v, abs(float(part[3])))
+        return 0.0
+    def rel(A, B):
+        i = 0
+        for kind, n in gd.eparts:
+            a, b = A[i:i + n], B[i:i + n]; i += n
+            if kind == "rot2": return ang_of2(corr.cmul([a[0], -a[1]], b))
+            if kind == "rot4": return ang_of4(corr.qmul([-a[0], -a[1], -a[2], a[3]], b))
+        return 0.0
+    def ang_of2(p): return abs(math.atan2(float(p[1]), float(p[0])))
+    def ang_of4(p):
+        v = math.sqrt(sum(float(x) ** 2 for x in p[:3])); return 2 * math.atan2(v, abs(float(p[3])))
+    els = [a for k, a in zip(sig, c["args"]) if k in "GHN"]
+    if els: out["ang_X"] = ang(els[0])
+    if len(els) > 1: out["ang_rel"] = rel(els[0], els[1])
+    th2, lin = tangent_stats(c)
+    if th2 is not None: out["ang_t"] = math.sqrt(float(th2))
+    return out
 
 def gen_moderate_tangent(op):
     """tangent whose components are all moderate (|.| <= 3): power series in ad_t converge quickly"""
@@ -141,6 +199,20 @@ PROPS["C04"] = dict(
     n=dict(quick=(20, 40), thorough=(300, 600)),
     assumptions=["model = hand-written Gallina mirror of LieGroupBase / TangentBase (lie_group_base.h, tangent_base.h) and of the alias table (Api.v: member aliases, operators, tangent-side forms, functions.h); tied to /repo by exact comparison over the rational scalar, every alias index executed on the implementation",
                  "the round-trip clauses (X+t)-X=t, X+(Y-X)=Y rest on C03 (log inverts exp below pi) and are additionally evaluated on the implementation"],
+)
+
+J05_PAIRS = ['J_inverse', 'J_log', 'J_exp', 'J_compose_a', 'J_compose_b', 'J_between_a', 'J_between_b', 'J_rplus_X', 'J_rplus_t', 'J_lplus_X', 'J_lplus_t', 'J_rminus_a', 'J_rminus_b', 'J_lminus_a', 'J_lminus_b', 'J_act_X', 'J_act_p', 'J_tplus_a', 'J_tplus_b', 'J_tminus_a', 'J_tminus_b']
+PROPS["C05"] = dict(
+    vfiles=["Properties_C05.v"], level="proof",
+    groups=BASE_GROUPS,
+    corr_ops=["Inverse", "Log", "Exp", "Compose", "Between", "Rplus", "Lplus", "Plus", "Rminus", "Lminus", "Minus", "Act", "TPlus", "TMinus"],
+    preds=[dict(op="P05", pairs=J05_PAIRS, scalars=("h",), htol=1e-6, dscale=lambda c: (1 + maxabs(c)) ** 2,
+                # forward differences with step 1e-30 must not straddle a branch threshold (the implemented functions jump by ~theta^3 there)
+                gen=gen_smooth("P05", strata=("zero", "tiny", "below_thr", "above_thr", "small", "generic"))),
+           dict(op="J05", pairs=J05_PAIRS, scalars=(), xscalars=("d", "h"), xtol=1e-5, dscale=lambda c: (1 + maxabs(c)) ** 2, gen=gen_smooth("J05"))],
+    n=dict(quick=(20, 25), thorough=(300, 400)),
+    assumptions=["model = hand-written Gallina mirror of every Jacobian-returning operation (per-group closed forms and the chain-rule Jacobians of LieGroupBase); tied to /repo by exact comparison over the rational scalar for every subset of requested outputs",
+                 "proved over the reals: the theorems listed in Properties_C05.v; every other Jacobian is tested, not proved: the analytic Jacobian against forward differences (step 1e-30) of the same operation, both evaluated by manif's own templates in 100-digit arithmetic, and the double-precision Jacobian against the 100-digit one (tolerance 1e-5 relative; the property says about 1e-6)"],
 )
 
 PROPS["C06"] = dict(
@@ -246,16 +318,48 @@ def eval_preds(P, pcases, log, scalars=("q", "d")):
                     bad += [(k, why) for _, why in b_]
             else:
                 s0 = pd["dscale"](c) if pd.get("dscale") else None
-                bad = vcheck.pair_failures(outs, False, tol=pd["dtol"] if sc != "f" else pd.get("ftol", 1e-3),
+                bad = vcheck.pair_failures(outs, False, tol={"d": pd.get("dtol"), "f": pd.get("ftol", 1e-3), "h": pd.get("htol", 1e-9)}[sc],
                                            scale_fn=(lambda k, a, b, s, s0=s0: max(s, s0)) if s0 is not None else None)
             th2, lin = tangent_stats(c) if bad else (None, None)
+            ra_ = rot_angles(c) if bad else {}
             for k, why in bad:
                 nm = pd["pairs"][k] if k < len(pd["pairs"]) else "pair%d" % k
-                viol.append(("pred", dict(group=c["group"], pred=c["op"], scalar=sc, pair=nm, _args=c["args"], theta2=th2, lin=lin),
-                             "%s: %s fails over %s: %s" % (c["group"], nm, {"q": "exact rationals", "d": "double", "f": "float"}[sc], why),
+                viol.append(("pred", dict(group=c["group"], pred=c["op"], scalar=sc, pair=nm, _args=c["args"], theta2=th2, lin=lin, **ra_),
+                             "%s: %s fails over %s: %s" % (c["group"], nm, {"q": "exact rationals", "d": "double", "f": "float", "h": "100-digit arithmetic"}[sc], why),
                              dict(kind="predicate", scalar=sc, pair=nm, case=corr.case_json(c),
                                   lhs=[fs(x) if not isinstance(x, float) else str(x) for x in outs[2 * k]],
                                   rhs=[fs(x) if not isinstance(x, float) else str(x) for x in outs[2 * k + 1]], why=why), True))
+    # cross-scalar comparison: the same outputs computed by two instantiations of the same templates (e.g. double against 100 digits)
+    for pd in P.get("preds", []):
+        if not pd.get("xscalars"): continue
+        sa, sb = pd["xscalars"]
+        sub = [c for c in pcases if c["op"] == pd["op"] and (not pd.get("pre") or pd["pre"](c))]
+        if not sub: continue
+        ra, be1 = vcheck.run_impl(sub, scalar=sa); rb, be2 = vcheck.run_impl(sub, scalar=sb)
+        for n_, lg in list(be1.items()) + list(be2.items()):
+            stats["pred_build_errors"].append(n_)
+            viol.append(("build", dict(binary=n_), "harness %s does not build against the current tree: %s" % (n_, lg[-400:]), dict(binary=n_, log=lg[-3000:]), False))
+        for x, y in zip(ra, rb):
+            c = x["case"]
+            oa, ob = vcheck.parse_outs(x["impl"]), vcheck.parse_outs(y["impl"])
+            if oa is None or ob is None:
+                if x["impl"] in ("build_failed",) or y["impl"] in ("build_failed",): continue
+                viol.append(("pred", dict(group=c["group"], pred=c["op"], scalar=sa, pair="exception", _args=c["args"]),
+                             "%s %s raised: %s=%s %s=%s" % (c["group"], c["op"], sa, x["impl"][:60], sb, y["impl"][:60]),
+                             dict(kind="predicate", scalar=sa, case=corr.case_json(c), result=[x["impl"][:300], y["impl"][:300]]), True)); continue
+            stats["pred_evaluations"] += 1; stats["pred_pairs"] += len(oa) // 2
+            s0 = pd["dscale"](c) if pd.get("dscale") else None
+            th2, lin = tangent_stats(c); ra_ = None
+            for k in range(len(oa) // 2):
+                b_ = vcheck.pair_failures([oa[2 * k], ob[2 * k]], False, tol=pd["xtol"], scale_fn=(lambda k_, a, b, s, s0=s0: max(s, s0)) if s0 is not None else None)
+                for _, why in b_:
+                    nm = pd["pairs"][k] if k < len(pd["pairs"]) else "pair%d" % k
+                    if ra_ is None: ra_ = rot_angles(c)
+                    viol.append(("pred", dict(group=c["group"], pred=c["op"], scalar=sa, pair=nm, _args=c["args"], theta2=th2, lin=lin, **ra_),
+                                 "%s: %s in %s differs from the %s evaluation of the same code: %s" % (c["group"], nm, {"d": "double", "f": "float"}.get(sa, sa), {"h": "100-digit"}.get(sb, sb), why),
+                                 dict(kind="predicate", scalar=sa, against=sb, pair=nm, case=corr.case_json(c),
+                                      lhs=[fs(v_) if not isinstance(v_, float) else str(v_) for v_ in oa[2 * k]][:120],
+                                      rhs=[fs(v_) if not isinstance(v_, float) else str(v_) for v_ in ob[2 * k]][:120], why=why), True))
     return viol, stats
 
 def run_property(pid, P, tier, seed):
